@@ -7,6 +7,7 @@ import Driver.Pconc
 import Driver.Abi
 import Driver.Tally
 import Driver.Chain
+import Driver.Oracle
 open Driver
 
 def dispatch (fam : String) : Option (List String → String → Option Res) :=
@@ -22,6 +23,7 @@ def dispatch (fam : String) : Option (List String → String → Option Res) :=
   | "calc" => some runCalc
   | "supply" => some runSupply
   | "nohalt" => some runNoHalt
+  | "oracle" => some runOracle
   | "escrow" => some runEscrow
   | "tally" => some runTally
   | "ratio" => some runRatio
